@@ -49,9 +49,37 @@ def _isnan(v):
     return isinstance(v, float) and v != v
 
 
+VTYPES = ["float", "float", "np.float64", "np.int64", "np.float32", "int"]
+LAST_VTYPE = ["float"]
+
+
+def _typed_values(vals, k):
+    """the same numbers in another numeric type (what list(np.array(...)) or integer data yields): numpy float64 always;
+    numpy int64 / Python int when every value is integral and not NaN; numpy float32 when every value is exactly
+    representable in single precision; otherwise unchanged.  The oracle keeps working on the plain numbers."""
+    import numpy as np
+    t = VTYPES[k % len(VTYPES)]
+    vals = list(vals)
+    if t == "np.float64":
+        return [np.float64(v) for v in vals], t
+    if t in ("np.int64", "int") and all(isinstance(v, (int, float)) and v == v and abs(v) < 2 ** 52 and float(v).is_integer() for v in vals):
+        return ([np.int64(int(v)) for v in vals] if t == "np.int64" else [int(v) for v in vals]), t
+    if t == "np.float32" and all(isinstance(v, (int, float)) and (v != v or float(np.float32(v)) == float(v)) for v in vals):
+        return [np.float32(v) for v in vals], t
+    return vals, "float"
+
+
 def _build(pts, times, feats):
-    """feats: ordered list of (name, values).  gen.make_track takes a dict (insertion ordered)."""
-    return gen.make_track(pts, times, dict(feats))
+    """feats: ordered list of (name, values).  gen.make_track takes a dict (insertion ordered).  The numeric type of the
+    values of each feature is a function of the feature's own content (so a case replays identically): see _typed_values."""
+    out = {}
+    for j, (name, vals) in enumerate(feats):
+        h = len(vals) + 7 * j
+        for v in list(vals)[:6]:
+            if isinstance(v, (int, float)) and v == v and abs(v) < 1e12:
+                h = (h * 31 + int(v * 4)) % 1000003
+        out[name], LAST_VTYPE[0] = _typed_values(vals, h)
+    return gen.make_track(pts, times, out)
 
 
 def _records(pts, times, feats):
